@@ -505,13 +505,13 @@ def partitions(tier):
             add("dlc_pair", [a], 2, "acks", warm=["sendA", "xferA", "recvB"])
         for a in OPS_CORE:
             add("dlc_pair", [a], 2, "core", warm=LAG)
-        add("llc_pair", LAG + ["xferB"], 2, "core", agf=1)
-        add("llc_pair", LAG + ["xferB"], 2, "core", agf=0)
+        add("llc_pair", LAG + ["xferB"], 1, "core", agf=1)
+        add("llc_pair", LAG + ["xferB"], 1, "core", agf=0)
         for a in OPS_CORE:
             add("llc_pair", [a], 2, "core", agf=1)
             add("llc_pair", [a], 2, "core", agf=0)
         for b in ("closeA", "busyB", "sendbigA"):
-            add("llc_pair", ["sendA", b], 2, "core", agf=1)
+            add("llc_pair", ["sendA", b], 1 if b == "sendbigA" else 2, "core", agf=1)
     else:
         for a in OPS_ACKS:
             for b in OPS_ACKS:
